@@ -31,6 +31,7 @@ type sym struct {
 var menu8 = []sym{{KSet, ""}, {KDel, ""}, {KMerge, ""}, {KSingleDel, ""}, {KSetWithDel, ""}, {KDelSized, "3"}, {KDelSized, "9"}, {KDelSized, ""}}
 var menu6 = menu8[:6]
 var menu5 = []sym{{KSet, ""}, {KDel, ""}, {KMerge, ""}, {KSingleDel, ""}, {KDelSized, "3"}}
+var menu5s = menu8[:5] // SETWITHDEL instead of DELSIZED
 
 func mkPt(k string, seq uint64, s sym) Pt {
 	p := Pt{K: k, Seq: seq, Kind: s.kind, V: s.v}
@@ -560,24 +561,23 @@ func TestCheck(t *testing.T) {
 		if !c.Thorough() {
 			parts = []part{
 				partOneKey(1, 4, menu8),
-				partOneKey(5, 5, menu5),
+				partOneKey(5, 5, menu5[:4]),
 				partTwoKeys(menu5, 2),
 				partOneKeyRangeDels(2, menu5, rdSpans1, []uint64{5, 10, 15, 20, 25}),
-				partOneKeyRangeDels(3, menu5, rdSpans1[:3], []uint64{5, 15, 20, 25}),
+				partOneKeyRangeDels(3, menu5, rdSpans1[:3], []uint64{15, 25}),
 				partRangeKeys(3),
 				partMixed(1, menu5),
-				partTwoKeysRangeDels(menu5[:4], rdSpans2[:3], []uint64{15, 25}),
+				partTwoKeysRangeDels(menu5[:4], []rdSpan{{"a", "c"}, {"a", "e"}}, []uint64{15, 25}),
 			}
 		} else {
 			parts = []part{
 				partOneKey(1, 5, menu8),
 				partOneKey(6, 6, menu5),
-				partTwoKeys(menu6, 3),
-				partOneKeyRangeDels(3, menu8, rdSpans1, []uint64{5, 10, 15, 20, 25, 30, 35}),
+				partTwoKeys(menu5s, 3),
+				partOneKeyRangeDels(3, menu6, rdSpans1, []uint64{5, 10, 15, 20, 25, 30, 35}),
 				partRangeKeys(4),
 				partMixed(2, menu8),
-				partMixed(3, menu5),
-				partTwoKeysRangeDels(menu5, rdSpans2, []uint64{15, 25, 35}),
+				partTwoKeysRangeDels(menu5, rdSpans2[:4], []uint64{15, 25, 35}),
 			}
 		}
 		rep := &reporter{count: map[string]int{}}
